@@ -9,6 +9,10 @@ def new_acc():
 
 
 def bad(acc, case):
+    from . import observe
+    if observe.ENTRY != "direct" and "entry" not in case:
+        case["entry"] = observe.ENTRY
+        case["what"] = "%s%s" % (case.get("what", ""), observe.via())
     acc["nbad"] += 1
     if len(acc["bad"]) < KEEP:
         acc["bad"].append(case)
